@@ -29,6 +29,31 @@ stream!(s10, M10, "moments10_stream");
 
 /// Rescale (by an exact power of two) so that the order-N arithmetic
 /// preconditions hold: n*M^N < 1e300 and sigma^N*u > 1e-290 (DESIGN.md 4.3).
+/// mode 1: scale (by a power of two) up to the top of the order-N domain (n*M^N just below 1e299);
+/// mode 2: down to its bottom (sigma^N*u just above 1e-290); mode 0: only if outside.
+pub fn rescale_to_edge(xs: &[f64], order: usize, mode: u8) -> Vec<f64> {
+    let base = rescale_for_order(xs, order);
+    if mode == 0 || base.is_empty() {
+        return base;
+    }
+    let n = base.len() as f64;
+    let m = base.iter().fold(0.0f64, |a, x| a.max(x.abs()));
+    let mean = base.iter().sum::<f64>() / n;
+    let sd = (base.iter().map(|x| (x - mean) * (x - mean)).sum::<f64>() / n).sqrt();
+    if m == 0.0 || sd == 0.0 {
+        return base;
+    }
+    let hi = ((298.5 - n.log10()) / order as f64).min(29.9);
+    let lo = -(290.0 - 16.0) / order as f64 + 0.6;
+    let shift = if mode == 1 { hi - m.log10() } else { lo - sd.log10() };
+    // stay inside the other bound and inside the C01 value domain
+    let shift = if mode == 1 { shift } else { shift.max(-29.5 - base.iter().filter(|x| **x != 0.0).fold(f64::INFINITY, |a, x| a.min(x.abs())).log10()) };
+    let k = (shift * std::f64::consts::LOG2_10).floor() as i32;
+    let f = 2f64.powi(k.clamp(-1000, 1000));
+    let out: Vec<f64> = base.iter().map(|x| x * f).collect();
+    if out.iter().all(|x| x.is_finite()) { out } else { base }
+}
+
 pub fn rescale_for_order(xs: &[f64], order: usize) -> Vec<f64> {
     let n = xs.len() as f64;
     if xs.is_empty() {
@@ -108,14 +133,14 @@ impl Check for Cross {
 }
 
 pub fn run(cx: &Ctx) {
-    cx.set_rule("cases = data sets over the C01 domain rescaled by an exact power of two so that n*max|x|^N < 1e300 and rho_N*u > 1e-290, fed one observation at a time to define_moments! types of order N in {4 (crate export Moments4), 5, 6, 8, 10}; len, mean, central_moment(p) and standardized_moment(p) for every p <= N, sample_variance, sample_skewness and sample_excess_kurtosis judged against exact central moments (scale rho_p, constant 2^(p+2)); the fixed values central_moment(0)=1, (1)=0, standardized_moment(0)=n, (1)=0, (2)=1 bit-for-bit; plus cross-agreement with Mean/Variance/Skewness/Kurtosis within two envelopes. Non-trivial = n >= 3 with non-zero spread; distinct = hash of (check, sequence bits)");
+    cx.set_rule("cases = data sets over the C01 domain rescaled by an exact power of two so that n*max|x|^N < 1e300 and rho_N*u > 1e-290 (one in five pushed to the top of that domain, one in five to its bottom), fed one observation at a time to define_moments! types of order N in {4 (crate export Moments4), 5, 6, 8, 10}; len, mean, central_moment(p) and standardized_moment(p) for every p <= N, sample_variance, sample_skewness and sample_excess_kurtosis judged against exact central moments (scale rho_p, constant 2^(p+2)); the fixed values central_moment(0)=1, (1)=0, standardized_moment(0)=n, (1)=0, (2)=1 bit-for-bit; plus cross-agreement with Mean/Variance/Skewness/Kurtosis within two envelopes. Non-trivial = n >= 3 with non-zero spread; distinct = hash of (check, sequence bits)");
     cx.assume("exact oracle and envelopes as in C01; data violating the order-N arithmetic preconditions are discarded and counted");
     let w = cx.workers;
     let cases = cx.by(1000, 15000);
-    let (mid, big) = (cx.by(300, 3000), cx.by(300, 3000));
+    let (mid, big) = (cx.by(300, 3000), cx.by(1500, 3000));
     macro_rules! go {
         ($chk:expr, $N:expr) => {{
-            let strat = move || gen::dataset(1, mid, big, 11.9).prop_map(|xs| Xs { xs: rescale_for_order(&xs, $N) });
+            let strat = move || (gen::dataset(1, mid, big, 11.9), prop_oneof![3 => Just(0u8), 1 => Just(1u8), 1 => Just(2u8)]).prop_map(|(xs, mode)| Xs { xs: rescale_to_edge(&xs, $N, mode) });
             cx.run_pt(&$chk, cases, w, strat, &format!("order {}: n <= {}, kappa <= 1e12, every p <= {}", $N, big, $N));
         }};
     }
